@@ -101,6 +101,11 @@ func items(t *rapid.T, depth, width, min int) []*recipe.Node {
 
 func call(t *rapid.T, depth, width int) recipe.Call {
 	s := rapid.SampledFrom(constructs).Draw(t, "construct")
+	return CallFor(t, s, depth, width)
+}
+
+// CallFor draws arguments for one given construct.
+func CallFor(t *rapid.T, s recipe.Sig, depth, width int) recipe.Call {
 	c := recipe.Call{Fn: s.Name}
 	for _, p := range s.Params {
 		switch p {
